@@ -7,6 +7,7 @@ Tie: the real APIClient over SimNet runs sets of concurrent operations against e
 every step the frames written, the outcome of every coroutine, the callbacks made and the handlers registered on the connection
 are compared with the extracted model, and the property's own predicate (computed here from the story alone) is evaluated on
 the implementation."""
+from vlib.privnames import priv, has_priv
 import asyncio
 import itertools
 import json
@@ -203,7 +204,7 @@ def run_story(story):
         steps = []
         with net.patched():
             cli, tr = await simnet.connected_client(loop, net, keepalive=1e7)
-            conn = cli._connection
+            conn = priv(cli, "_connection")
             orig_cb = APIConnection.send_message_callback_response
             current = {"id": None}
 
@@ -215,7 +216,7 @@ def run_story(story):
                     log.append(("U", oid))
                     return un()
                 return unsub
-            base = {k.__name__: len(v) for k, v in conn._message_handlers.items()}
+            base = {k.__name__: len(v) for k, v in priv(conn, "_message_handlers").items()}
             tasks, ops = {}, {}
             seen_done = set()
 
@@ -302,7 +303,7 @@ def run_story(story):
                             seen_done.add(oid)
                             log.append(("D", oid, classify_result(ops[oid], t)))
                     counts = {}
-                    for k, v in conn._message_handlers.items():
+                    for k, v in priv(conn, "_message_handlers").items():
                         n = len(v) - base.get(k.__name__, 0)
                         if n:
                             counts[PB_KIND.get(k.__name__, k.__name__)] = n
